@@ -14,11 +14,11 @@ with C03 / C14 / C17 (pebbling formula of the DAG read, unsatisfiable, same call
 Props/C17/Tools.lean.
 
 Findings kept as theorems about the model of the code as it is (notes/C18_tools.md):
-  D43  an option written `-o=--` / `-o--` / `--output=--` / `-i=--` stores `[]` (argparse quirk) and the tool dies with
+  C18-T1  an option written `-o=--` / `-o--` / `--output=--` / `-i=--` stores `[]` (argparse quirk) and the tool dies with
        AttributeError                                              → `dashdash_value_escapes`
-  D44  an input that opens but cannot be read (OSError) is swallowed by `main()`: exit status 0, nothing written
+  C18-T2  an input that opens but cannot be read (OSError) is swallowed by `main()`: exit status 0, nothing written
                                                                    → `unreadable_input_is_silent`
-  D45  the reports of the two tools do not carry the comment marker → `report_prefix_cnfshuffle`, `report_prefix_k2p`
+  C18-T3  the reports of the two tools do not carry the comment marker → `report_prefix_cnfshuffle`, `report_prefix_k2p`
 -/
 import Props.C06.Text
 import Props.C09
@@ -212,7 +212,7 @@ theorem cnfshuffle_outcome (env : Env) (argv : List String) (ds : List Shuffle.D
 
 /-- (a) `tool_never_escapes` for cnfshuffle, PARTIAL: the run ends in a formula, the help or a reported error —
 for every argv, every environment in which no input is unreadable, all legal draws — PROVIDED the command line gives
-no file option the explicit value `--` (finding D43).  Missing at full strength: exactly the two hypotheses
+no file option the explicit value `--` (finding C18-T1).  Missing at full strength: exactly the two hypotheses
 `NoDashDashValue` and `Readable`, both necessary (`dashdash_value_escapes`, `unreadable_input_is_silent`). -/
 theorem tool_never_escapes_cnfshuffle_partial (env : Env) (argv : List String) (ds : List Shuffle.Draw)
     (hdd : NoDashDashValue shuffleSpec env argv) (hr : Readable env) (hl : AllLegal env argv ds) :
@@ -239,12 +239,12 @@ def demoEnv (stdin : Content) : Env :=
   { stdin := stdin, stdinUniversal := true, stdinName := "<stdin>", file := fun _ => none, writable := fun _ => true,
     generator := "CNFgen", copyright := "(C)", url := "https://massimolauria.net/cnfgen" }
 
-/-- D43 (finding): `cnfshuffle -p -v -c -o=--` on a perfectly good formula dies with AttributeError -/
+/-- C18-T1 (finding): `cnfshuffle -p -v -c -o=--` on a perfectly good formula dies with AttributeError -/
 theorem dashdash_value_escapes :
     cnfshuffleRun (demoEnv (.text "p cnf 2 1\n1 -2 0\n".toList)) ["-p", "-v", "-c", "-o=--"] [] =
       .escaped "AttributeError" := by decide +kernel
 
-/-- D44 (finding): an input that cannot be read ends the tool silently with exit status 0 -/
+/-- C18-T2 (finding): an input that cannot be read ends the tool silently with exit status 0 -/
 theorem unreadable_input_is_silent :
     cnfshuffleRun (demoEnv .unreadable) [] [] = .silent ∧ exitStatus .silent = 0 := by decide +kernel
 
@@ -342,7 +342,7 @@ theorem shuffleBody_prefix (env : Env) (st : Args) (ds : List Shuffle.Draw) (src
       · exact errOutcome_prefix _ _ _ _ h
       · exact absurd h (writeOut_not_cliError _ _ _ _ _)
 
-/-- the report of cnfshuffle NEVER carries the comment marker `c ` (finding D45): the prefix is empty in every
+/-- the report of cnfshuffle NEVER carries the comment marker `c ` (finding C18-T3): the prefix is empty in every
 error outcome, whatever the cause -/
 theorem report_prefix_cnfshuffle (env : Env) (argv : List String) (ds : List Shuffle.Draw) (src : ErrSrc)
     (pfx : String) (h : cnfshuffleRun env argv ds = .cliError src pfx) : pfx = "" := by
@@ -468,7 +468,7 @@ theorem k2p_outcome (env : Env) (argv : List String) :
 /-- (a) `tool_never_escapes` for kthlist2pebbling, PARTIAL: every command line that does not select a transformation
 sub-command ends in a formula, the help or a reported error, under the same two hypotheses as for cnfshuffle.
 Missing at full strength: the transformation sub-commands (their sub-parsers and `transform_cnf` are outside this
-model: `k2pRun = none`), `NoDashDashValue` (D43) and `Readable` (D44). -/
+model: `k2pRun = none`), `NoDashDashValue` (C18-T1) and `Readable` (C18-T2). -/
 theorem tool_never_escapes_k2p_partial (env : Env) (argv : List String)
     (hdd : NoDashDashValue k2pSpec env argv) (hr : Readable env) :
     k2pRun env argv = none ∨ ∃ o, k2pRun env argv = some o ∧ Clean o := by
@@ -512,7 +512,7 @@ theorem k2p_ok_spec (env : Env) (argv : List String) (d : Dest) (t : IO.Str) (h 
         exact ⟨st, s, u, n, D, rfl, hi, hr, hinv, hd, hd', rfl⟩
 
 /-- the report of kthlist2pebbling carries `c ` exactly when the READER refused the input (the prefix set inside
-`with msg_prefix('c ')` survives the exception); a refused command line is reported without it (finding D45) -/
+`with msg_prefix('c ')` survives the exception); a refused command line is reported without it (finding C18-T3) -/
 theorem report_prefix_k2p (env : Env) (argv : List String) (src : ErrSrc) (pfx : String)
     (h : k2pRun env argv = some (.cliError src pfx)) :
     (src = .parser ∧ pfx = "") ∨ (src = .reader ∧ pfx = "c ") := by
